@@ -83,6 +83,15 @@ def run_case(case):
 	elif kind == 'roundtrip':
 		idx, k = int(case['index']), int(case['k'])
 		exp, act = idx, _call(ck.kmer_to_index, ck.index_to_kmer(idx, k))
+		if exp == act:
+			# the library's own binding, with the index given as a Python int and as the NumPy scalar a signature array yields
+			import numpy as np
+			for name, arg in (('int', idx), ('numpy.uint64', np.uint64(idx))) + ((('numpy.uint32', np.uint32(idx)),) if idx < 2 ** 32 else ()):
+				km = _call(gk.index_to_kmer, arg, k)
+				back = _call(gk.kmer_to_index, km) if isinstance(km, bytes) else km
+				if back != idx:
+					act = [f'gambit.kmers.index_to_kmer({name})', km.decode() if isinstance(km, bytes) else km, back]
+					break
 	else:
 		return {'error': f'unknown case kind {kind}'}
 	return {'ok': exp == act, 'expected': exp, 'actual': act}
@@ -126,6 +135,10 @@ def _cases(tier, seed):
 				yield {'kind': 'roundtrip', 'index': idx, 'k': k}
 	for idx in (2 ** 64 - 1, 2 ** 64, -1):
 		yield {'kind': 'dec', 'index': idx, 'k': 32}
+	# indices that are not exactly representable as a double, for every k that can hold them
+	for k in range(27, 33):
+		for _ in range(6):
+			yield {'kind': 'roundtrip', 'index': rnd.randrange(2 ** 53 + 1, 4 ** k) | 1, 'k': k}
 	yield {'kind': 'dec', 'index': 0, 'k': -1}
 	for _ in range(2000 if tier == 'quick' else 50000):
 		k = rnd.randint(1, 32)
